@@ -19,8 +19,8 @@ from engine.sym import pick
 
 ID = "C19"
 U1, U2 = "urn:u1", "urn:u2"
-CFG = {"nsmap": 0, "nodes": 4, "docvariant": "prefixed"}
-TAGS = ['{%s}a' % U1, '{%s}b' % U1, '{%s}a' % U2, 'a']
+CFG = {"nsmap": 0, "nodes": 4, "docvariant": "prefixed", "ntags": 4}
+TAGS = ['{%s}a' % U1, '{%s}a' % U2, 'a', '{%s}b' % U1]          # quick tier uses the first three
 NSMAPS = [{'p': U1, 'q': U2}, {'': U1, 'q': U2}, {'p': U1, 'p2': U1, 'q': U2}, {}]
 
 
@@ -97,7 +97,7 @@ def region_default_ns_unqualified(**kw):
     n = CFG["nodes"]
     i = pick(kw["target"], n)
     while True:
-        if pick(kw["t%d" % i], len(TAGS)) == 3:
+        if pick(kw["t%d" % i], CFG["ntags"]) == 2:
             return True
         if i == 0:
             return False
@@ -110,7 +110,7 @@ def pre_tree(fn, **kw):
         if not (0 <= kw["p%d" % i] < i):
             return False
     for i in range(n):
-        if not (0 <= kw["t%d" % i] < len(TAGS)):
+        if not (0 <= kw["t%d" % i] < CFG["ntags"]):
             return False
     if not (0 <= kw["target"] < n):
         return False
@@ -123,10 +123,10 @@ def pre_tree(fn, **kw):
 
 def h_getpath(**kw) -> bool:
     n = CFG["nodes"]
-    nodes = [ET.Element(TAGS[pick(kw["t0"], len(TAGS))])]
+    nodes = [ET.Element(TAGS[pick(kw["t0"], CFG["ntags"])])]
     for i in range(1, n):
         parent = nodes[pick(kw["p%d" % i], i)]
-        nodes.append(ET.SubElement(parent, TAGS[pick(kw["t%d" % i], len(TAGS))]))
+        nodes.append(ET.SubElement(parent, TAGS[pick(kw["t%d" % i], CFG["ntags"])]))
     target = nodes[pick(kw["target"], n)]
     ns = NSMAPS[CFG["nsmap"]]
     path = etree_getpath(target, nodes[0], ns, relative=False, add_position=True)
@@ -264,9 +264,9 @@ def obligations(tier, seed):
         if quick and k == 3:
             continue
         args = [["p%d" % i, "int"] for i in range(1, n)] + [["t%d" % i, "int"] for i in range(n)] + [["target", "int"]]
-        out.append({"name": "getpath/nsmap%d" % k, "fn": "h_getpath", "pre": "pre_tree", "args": args, "config": {"nsmap": k, "nodes": n},
+        out.append({"name": "getpath/nsmap%d" % k, "fn": "h_getpath", "pre": "pre_tree", "args": args, "config": {"nsmap": k, "nodes": n, "ntags": 3 if quick else 4},
                     "timeout": 600 if quick else 3000, "twin_timeout": 30,
-                    "bound": "trees of %d nodes (every parent vector), tags from %r, every target, namespace map %r" % (n, TAGS, NSMAPS[k])})
+                    "bound": "trees of %d nodes (every parent vector), tags from %r, every target, namespace map %r" % (n, TAGS[:3 if quick else 4], NSMAPS[k])})
     for v in ("prefixed", "default"):
         out.append({"name": "localise/%s" % v, "fn": "h_localise", "pre": "pre_fault", "args": [["node", "int"], ["fault", "int"]],
                     "config": {"docvariant": v}, "timeout": 400, "twin_timeout": 30, "bound": "9 nodes x %d fault kinds" % len(FAULTS)})
